@@ -48,3 +48,19 @@ pub fn generator(a: &[&str]) -> String {
     let g = gf::generator(int(a[0]));
     format!("ok {}", show(g))
 }
+
+pub fn rs_decode(a: &[&str]) -> String {
+    let s = sym(int(a[0]));
+    let mut cw = bytes(a[1]);
+    match errorcode::decode_error(&mut cw, s) {
+        Ok(()) => format!("ok {}", show(&cw)),
+        Err(e) => format!(
+            "err {}",
+            match e {
+                errorcode::ErrorDecodingError::TooManyErrors => "TooManyErrors",
+                errorcode::ErrorDecodingError::ErrorsOutsideRange => "ErrorsOutsideRange",
+                errorcode::ErrorDecodingError::Malfunction => "Malfunction",
+            }
+        ),
+    }
+}
